@@ -59,7 +59,7 @@ def tag(draw, allow_invalid=False):
         v = draw(V.holder())
         sep = draw(st.sampled_from([" ", " ", "\t"]))
         return {"kind": "con", "text": f"SPDX-FileContributor:{sep}{v}", "value": v}
-    h = draw(V.holder())
+    h = draw(V.holder(markers=True))
     y = draw(V.opt_year())
     if draw(st.integers(0, 9)) == 0:
         line = f"SPDX-SnippetCopyrightText: {y + ' ' if y else ''}{h}"
